@@ -156,7 +156,7 @@ def _one_impl(sc, algpair, idx: int, seed: int):
         segs[-1] = R.b64e(bytes(last)).decode()
         tok = ".".join(segs)
     try:
-        t = jwt.decode(tok, dec_key, **kwargs)
+        t = jwt.decode(J.F(tok), dec_key, **kwargs)
         out = "claims"
     except InvalidPayloadError:
         out = "invalid_payload"
